@@ -129,6 +129,24 @@ def run(ctx, rep):
         if module_of(b.key) == "libwild::input_data":
             rep.ob("inputs-read-only", f"{stable(b.key)}->{ck}", ck in ("memmap2::MmapOptions::map", "memmap2::MmapOptions::map_copy_read_only"),
                    "inputs are mapped read-only", b.file, t["l"])
+    # ---- other names of the old output ----------------------------------------------------------------------
+    # In replace mode the output path must be given a *new* inode: if the unlink of the old file can fail silently, the
+    # truncating open rewrites the old inode, i.e. every hard link of the previous output (libfoo.so.bak, a package
+    # manager's copy) - files that are not declared outputs. Same rules as C21 (shared implementation), reported here.
+    import C21
+    import framework
+    sub = framework.Report("C21")
+    C21.run(ctx, sub)
+    rep.rule("old-inode-untouched", "replace mode never rewrites the old output's inode (so hard links of it are not touched): the truncating open is dominated by the "
+             "success edge of the unlink helper, and the helper returns Ok only if remove_file succeeded or failed with NotFound")
+    n = 0
+    for o in sub.obligations:
+        if o["rule"] in ("unlink-before-open", "unlink-strict", "truncate-arm"):
+            n += 1
+            w = o.get("where", "")
+            f, _, l = w.rpartition(":")
+            rep.ob("old-inode-untouched", f"{o['rule']}:{o['instance']}", o["ok"], o["detail"], f or None, int(l) if l.isdigit() else None)
+    rep.floor("old-inode-untouched", "replace-mode obligations", n, 6)
     rep.assume("files written by dependencies (tracing subscribers, rayon) are outside the analysed program")
 
 
